@@ -233,6 +233,11 @@ def _run_blocker(chunks, finaliser, hazards):
         b.finalise()
     elif finaliser == 'seek0':
         b.seek(0)
+        if (len(chunks) + sum(len(c) for c in chunks[:3])) % 2:
+            # the caller looks at the head of the finished file, and the blocker object goes away (end of the producing
+            # function, garbage collection) before the file is used
+            f.read(4)
+            del b                # (reference counting finalises the object at once)
     else:
         b.close()
         return f.closed_value
@@ -411,6 +416,13 @@ def _vbs_write_events(recs, blocked, fins, api, fileobj, peek):
             w.close()
     for x in fins:
         events.append(ev('fin', 1 if x == 'close' else 2))
+    if (len(recs) + len(fins)) % 3 == 1 and f.readable():
+        # the finished file is looked at (position off any boundary) and the writer object goes away before it is read
+        import gc
+        f.seek(0)
+        f.read(5)
+        del w
+        gc.collect()
     f.seek(0)
     data = f.read()
     events.append(ev('file', 0, '', data))
